@@ -29,8 +29,23 @@ def unhexList : List Char → Option Bytes
 
 def unhex (s : String) : Option Bytes := if s = "-" then some [] else unhexList s.toList
 
-def strBz (s : String) : Bytes := if s = "~" ∨ s = "-" then [] else s.toList.map Char.toNat
-def bzStr (b : Bytes) : String := if b.isEmpty then "~" else String.ofList (b.map Char.ofNat)
+/-- text of an op-line field as bytes: `~`/`-` = empty, `c^n` = the character `c` repeated `n` times
+(external ids at the length limits) -/
+def strBz (s : String) : Bytes :=
+  if s = "~" ∨ s = "-" then []
+  else match s.toList with
+    | c :: '^' :: d :: ds =>
+      (match (String.ofList (d :: ds)).toNat? with
+       | some n => if n ≤ 100000 then List.replicate n c.toNat else s.toList.map Char.toNat
+       | none => s.toList.map Char.toNat)
+    | cs => cs.map Char.toNat
+/-- canonical rendering: runs of one character of length ≥ 8 as `c^n` -/
+def bzStr (b : Bytes) : String :=
+  match b with
+  | [] => "~"
+  | c :: _ =>
+    if b.length ≥ 8 ∧ b.all (· = c) then s!"{Char.ofNat c}^{b.length}"
+    else String.ofList (b.map Char.ofNat)
 
 /-- symbolic account name → address bytes: the name padded with `_` to 20 bytes (32 for names
 starting with `Z`); `gov` is the governance authority; `-`/`~` no address. -/
@@ -281,19 +296,31 @@ def lookLine (s : Store) (r : List String) : String :=
   let ow := splitList (getStr r "ow")
   let dn := splitList (getStr r "dn")
   let xs := splitList (getStr r "xs")
+  let allOs := match getAllOrders s bigReq with | .error _ => [] | .ok (os, _) => os
   let all := match getAllOrders s bigReq with
     | .error e => showPErr e
     | .ok (os, _) => joinOr (os.map orderBrief) ","
+  -- every listed order fetched by id (GetOrder grpc_query.go:87)
+  let g := joinOr (allOs.map fun o =>
+    match getOrderFromStore s o.id with | some o' => orderBrief o' | none => s!"{o.id}:?") ","
+  -- every listed payment fetched by (source, external id) (GetPayment grpc_query.go:560)
+  let gp := match sdkFilteredPaginate (prefixStore s prefixPayment) bigReq (fun _ => true) with
+    | .error e => showPErr e
+    | .ok (acc, _) => joinOr (acc.filterMap fun (e : Entry) =>
+        match e.2 with
+        | .payment p => some (match getPaymentFromStore s p.source p.ext with
+            | some p' => payItem p' | none => s!"{payItem p}:?")
+        | _ => none) ","
   let q0 : Q := { kind := "", arg := "", ty := "", after := 0, rev := false, limit := 100000, ct := false }
   let parts :=
-    [s!"all={all}"] ++
+    [s!"all={all}", s!"g={g}"] ++
     mk.map (fun m => s!"m.{m}={itemsOf (pageOnce s { q0 with kind := "market", arg := m } bigReq)}") ++
     ow.map (fun o => s!"o.{o}={itemsOf (pageOnce s { q0 with kind := "owner", arg := o } bigReq)}") ++
     dn.map (fun d => s!"d.{d}={itemsOf (pageOnce s { q0 with kind := "asset", arg := d } bigReq)}") ++
     (mk.flatMap fun m => xs.map fun x =>
       let r := getOrderByExternalID s (UInt32.ofNat ((parseNat? m).getD 0)) (strBz x)
       s!"x.{m}.{x}={match r with | some o => toString o.id | none => "-"}") ++
-    [s!"pall={itemsOf (pageOnce s { q0 with kind := "payall" } bigReq)}"] ++
+    [s!"pall={itemsOf (pageOnce s { q0 with kind := "payall" } bigReq)}", s!"gp={gp}"] ++
     ow.map (fun o => s!"ps.{o}={itemsOf (pageOnce s { q0 with kind := "paysrc", arg := o } bigReq)}") ++
     ow.map (fun o => s!"pt.{o}={itemsOf (pageOnce s { q0 with kind := "paytgt", arg := o } bigReq)}") ++
     [s!"call={itemsOf (pageOnce s { q0 with kind := "comall" } bigReq)}"] ++
@@ -306,6 +333,10 @@ def countOf (x : String) (xs : List String) : Nat := (xs.filter (· = x)).length
 
 def isProperPrefixStr (p s : String) : Bool := p.length < s.length && s.startsWith p
 
+def fieldsDiffer : Option String → Option String → Bool
+  | some a, some b => a ≠ b
+  | _, _ => false
+
 /-- "each open order exactly once in each lookup and nothing else", evaluated on the
 implementation's `look` answers alone (its lookups compared with each other). -/
 def checkLook (impl : String) : String :=
@@ -314,9 +345,12 @@ def checkLook (impl : String) : String :=
   match field "all" with
   | none => "fail:unparsed"
   | some allItems =>
-    let orders := allItems.map (·.splitOn ":")
-    let ids := orders.filterMap (·.head?)
-    if ¬ ids.Nodup then "fail:all_lists_order_twice" else
+    let orders : List (List String) := allItems.map (·.splitOn ":")
+    let ids : List String := orders.filterMap (·.head?)
+    if ¬ ids.Nodup then "fail:all_lists_order_twice"
+    else if fieldsDiffer (kv ws "g") (kv ws "all") then "fail:getOrder_mismatch"
+    else if fieldsDiffer (kv ws "gp") (kv ws "pall") then "fail:getPayment_mismatch"
+    else
     -- every order is in its market / owner / asset list exactly once, and found by its external id
     let missing := orders.findSome? fun o =>
       match o with
@@ -331,7 +365,8 @@ def checkLook (impl : String) : String :=
           (if x = "~" then none else
             match kv ws s!"x.{m}.{x}" with
             | none => none
-            | some v => if v = id then none else some "fail:byExternalId_wrong")
+            | some v => if v = id then none
+                        else if v = "-" then some "fail:byExternalId_missing" else some "fail:byExternalId_wrong")
       | _ => some "fail:unparsed"
     match missing with
     | some c => c
@@ -445,14 +480,83 @@ def checkQ (s : Store) (q : Q) (offsetMode : Bool) (impl : String) : String :=
       else "fail:listing_order"
   | _, _ => "-"
 
+/-! ### holds line -/
+
+def showHolds (s : Store) (ow : List String) : String :=
+  joinOr (ow.map fun o =>
+    s!"{o}={joinOr ((specHolds s (addrOf o)).map fun c => s!"{c.2}{bzStr c.1}") ","}") " "
+
+/-! ### uniqueness / limits, judged on an ACCEPTED creation against the records dumped before it -/
+
+/-- `old` = the store the implementation dumped right before the message `ws`, which it accepted -/
+def checkAcceptedCreate (old : Store) (ws : List String) : Option String :=
+  match ws with
+  | "pay" :: r =>
+    let src := getAddr r "s"
+    let x := strBz (getStr r "x")
+    if x.length > 100 then some "externalId_too_long"
+    else if (paymentRecords old).any (fun p => p.source = src ∧ p.ext = x) ∨ old.has (keyPayment src x) then
+      some "payment_unique"
+    else none
+  | "ask" :: r | "bid" :: r =>
+    let m := getU32 r "m"
+    let x := strBz (getStr r "x")
+    if x.length > 100 then some "externalId_too_long"
+    else if x ≠ [] ∧ (orderRecords old).any (fun o => o.market = m ∧ o.ext = x) then some "externalId_not_unique"
+    else none
+  | "setext" :: r =>
+    let m := getU32 r "m"
+    let id := getU64 r "id"
+    let x := strBz (getStr r "x")
+    if x.length > 100 then some "externalId_too_long"
+    else if x ≠ [] ∧ (orderRecords old).any (fun o => o.market = m ∧ o.ext = x ∧ o.id ≠ id) then
+      some "externalId_not_unique"
+    else none
+  | _ => none
+
+/-- the frame of one message, judged on the implementation's dumps before (`old`) and after (`new`):
+a rejected message changes nothing; an accepted creation adds one record and touches no other. -/
+def checkFrame (old new : Store) (ws : List String) (res : String) : Option String :=
+  if res.startsWith "ok" then
+    (match ws.head? with
+     | some "pay" | some "ask" | some "bid" => checkCreated old new
+     | _ => none)
+  else if res.startsWith "err" then
+    (if old = new then none else some "rejected_changed_state")
+  else none
+
+/-- single-record lookups judged against the records the implementation dumped -/
+def checkGetExt (s : Store) (m : UInt32) (x : Bytes) (impl : String) : String :=
+  let recs := (orderRecords s).filter fun o => o.market = m ∧ o.ext = x ∧ x ≠ []
+  match words impl with
+  | ["ok", id] => if recs.any (fun o => toString o.id = id) then "ok" else "fail:byExternalId_extra"
+  | _ => if recs.isEmpty then "ok" else "fail:byExternalId_missing"
+
+def checkGet (s : Store) (id : UInt64) (impl : String) : String :=
+  let recs := (orderRecords s).filter fun o => o.id = id
+  match words impl with
+  | ["ok", o] => if recs.any (fun r => showOrder r = o) then "ok" else "fail:getOrder_wrong"
+  | _ => if recs.isEmpty then "ok" else "fail:getOrder_missing"
+
+def checkGetPay (s : Store) (src x : Bytes) (impl : String) : String :=
+  let recs := (paymentRecords s).filter fun p => p.source = src ∧ p.ext = x
+  match words impl with
+  | ["ok", p] => if recs.any (fun r => showPayment r = p) then "ok" else "fail:getPayment_wrong"
+  | _ => if recs.isEmpty then "ok" else "fail:getPayment_missing"
+
 /-! ### the driver -/
 
 structure DState where
   st : State := init
   maxId : Nat := 0
   mkts : List Nat := []
-  /-- the store the IMPLEMENTATION dumped last (`raw`): listings are judged against its records -/
+  /-- the store the IMPLEMENTATION dumped last (`raw`): listings are judged against its records;
+  `none` once a message was accepted after it -/
   implKv : Option Store := none
+  /-- the implementation's last dump, kept across the messages after it -/
+  prevKv : Option Store := none
+  /-- the messages since that dump, with the implementation's answers (newest first) -/
+  muts : List (List String × String) := []
 
 def driver : Driver where
   σ := DState
@@ -467,10 +571,23 @@ def driver : Driver where
         | none => "-"
         | some _ => match parsed with
           | none => "fail:unparsed"
-          | some s => match checkInv s with | none => "ok" | some c => s!"fail:{c}"
-      ({ d with implKv := parsed }, showRaw d.st.kv, v)
+          | some s => match checkInv s with
+            | some c => s!"fail:{c}"
+            | none =>
+              -- the frame of the ONE message between the previous dump and this one
+              match d.prevKv, d.muts with
+              | some old, [(ws, res)] =>
+                (match checkFrame old s ws res with | some c => s!"fail:{c}" | none => "ok")
+              | _, _ => "ok"
+      ({ d with implKv := parsed, prevKv := parsed, muts := [] }, showRaw d.st.kv, v)
     | "look" :: r =>
       (d, lookLine d.st.kv r, match impl with | some i => checkLook i | none => "-")
+    | "holds" :: r =>
+      let ow := splitList (getStr r "ow")
+      let v := match impl, d.implKv with
+        | some i, some s => if i = showHolds s ow then "ok" else "fail:hold_ne_records"
+        | _, _ => "-"
+      (d, showHolds d.st.kv ow, v)
     | "q" :: r =>
       let q := parseQ r
       let pages := if getStr r "mode" = "off" then pagesByOffset d.st.kv q pageCap 0 else pagesByKey d.st.kv q pageCap none
@@ -487,19 +604,20 @@ def driver : Driver where
       let id := getU64 r "id"
       let out := if id = 0 then "err:invalid" else
         match getOrderFromStore d.st.kv id with | some o => "ok " ++ showOrder o | none => "err:invalid"
-      (d, out, "-")
+      (d, out, match impl, d.implKv with | some i, some s => checkGet s id i | _, _ => "-")
     | "getext" :: r =>
       let m := getU32 r "m"
       let x := strBz (getStr r "x")
       let out := if m = 0 ∨ x = [] then "err:invalid" else
         match getOrderByExternalID d.st.kv m x with | some o => s!"ok {o.id}" | none => "err:invalid"
-      (d, out, "-")
+      (d, out, match impl, d.implKv with | some i, some s => checkGetExt s m x i | _, _ => "-")
     | "getpay" :: r =>
       let s := getAddr r "s"
       let out := if s = [] then "err:invalid" else
         match getPaymentFromStore d.st.kv s (strBz (getStr r "x")) with
         | some p => "ok " ++ showPayment p | none => "err:invalid"
-      (d, out, "-")
+      (d, out, match impl, d.implKv with
+        | some i, some st => checkGetPay st s (strBz (getStr r "x")) i | _, _ => "-")
     | _ =>
       -- freshness of ids, judged on what the implementation answered (whatever the model says)
       let (d1, v) : DState × String :=
@@ -514,6 +632,17 @@ def driver : Driver where
                         if i = 0 then "fail:market_id_zero" else if i ∈ d.mkts then "fail:market_id_reused" else "ok")
            | none => (d, "fail:unparsed"))
         | _, _ => (d, "-")
+      -- uniqueness / length limits of an accepted creation, judged on the records dumped before it
+      let implOk := implWs.head? = some "ok"
+      let v := if v.startsWith "fail" ∨ ¬ implOk then v else
+        match d.implKv with
+        | some old =>
+          (match checkAcceptedCreate old ws with
+           | some c => s!"fail:{c}"
+           | none => if v = "-" ∧ ws.head? ∈ [some "pay", some "setext"] then "ok" else v)
+        | none => v
+      let d1 := { d1 with muts := (ws, impl.getD "") :: d1.muts,
+                          implKv := if implOk then none else d1.implKv }
       match parseOp ws with
       | none => (d1, "bad-op", v)
       | some o =>
